@@ -172,7 +172,7 @@ func twinCfg(e *Env, rng *simsched.Rand) *Cfg {
 }
 
 func init() {
-	probeNames["C07"] = []string{"twin_compared", "aborted_rollback", "aborted_close", "aborted_failed_commit", "aborted_after_flush", "aborted_with_meta_growth", "aborted_alloc_from_end", "aborted_alloc_from_freelist", "aborted_freed_new_page", "aborted_by_write_fault", "reopen"}
+	probeNames["C07"] = []string{"twin_compared", "aborted_rollback", "aborted_close", "aborted_failed_commit", "aborted_after_flush", "aborted_with_meta_growth", "aborted_alloc_from_end", "aborted_alloc_from_freelist", "aborted_freed_new_page", "aborted_by_write_fault", "nearly_full_big_mapping_preset", "reopen"}
 	register(&PropDef{
 		ID: "C07", Level: "exploration", QuickSec: 50, ThoroSec: 900,
 		Rule: "twin execution: run A executes a seeded history in which transactions end by Rollback, Close or a Commit that fails (out of space on bounded files, or an injected WriteAt failure / short write armed right before that Commit and cleared when it returns); run B executes only the transactions that committed. After every aborted transaction and after every later transaction the twins must agree on the committed model state, on the free data/meta page SETS, end markers, meta area size, internal pages, overwrite mapping, on the capacity probe (bounded files), on every operation outcome (returned page ids, errors) and on the state after reopen. Non-trivial = run with at least one aborted transaction that had allocated, freed or flushed pages; distinct = op list + config + schedule hash.",
@@ -201,6 +201,31 @@ func c07Body(e *Env) {
 		if rng.Intn(3) == 0 { // small bounded: failing commits
 			c.Cfg.MaxSize = 64 << 10
 			c.Cfg.InitMeta = 0
+		}
+		if rng.Intn(20) == 0 {
+			// preset: nearly full file, overwrite mapping about to need a second
+			// metadata page, then an overflow-enabled transaction whose commit fails
+			// from a write error (meta growth takes the last unused data pages and
+			// overflow pages in one step)
+			n1 := 69 + rng.Intn(5)
+			// the meta area is sized such that the first batch of overwrites just
+			// fits (or nearly), which leaves the unused data pages at the file end
+			c.Cfg.PageSize, c.Cfg.MaxSize, c.Cfg.InitMeta = 1024, []int{192, 256}[rng.Intn(2)]<<10, n1+rng.Intn(6)
+			c.Cfg.WALLimit, c.Cfg.Variant, c.Cfg.NTx = 1000, 5, 4
+			ops := []Op{{K: "begin", A: 1}, {K: "allocfill", A: 1 + rng.Intn(3)}, {K: "commit"}, {K: "begin", A: 1}}
+			for i := 0; i < n1; i++ {
+				ops = append(ops, Op{K: "setfull", A: i})
+			}
+			ops = append(ops, Op{K: "commit"}, Op{K: "begin", A: 1})
+			for i, n2 := 0, 1+rng.Intn(5); i < n2; i++ {
+				ops = append(ops, Op{K: "setfull", A: n1 + i})
+			}
+			if rng.Intn(4) > 0 {
+				ops = append(ops, Op{K: "faultarm", A: rng.Intn(2), B: rng.Intn(12)})
+			}
+			ops = append(ops, Op{K: "commit"}, Op{K: "begin", A: 1}, Op{K: "setfull", A: 3}, Op{K: "commit"}, Op{K: "begin"}, Op{K: "free", A: 5}, Op{K: "commit"})
+			c.Tasks = map[string][]Op{"main": ops}
+			e.Probe("nearly_full_big_mapping_preset")
 		}
 	}
 	cfg := *c.Cfg
